@@ -167,6 +167,46 @@ func state() *lua.LState {
 	return L
 }
 
+// cb prints a byte string as a Gallina term; a run of 64 or more equal bytes is written as
+// `repeat b (Z.to_nat n)` (coqc needs ~40 KB of memory per element of a list literal: a numeral
+// with 12000 zeros cost 500 MB to parse).
+func cb(b []byte) string {
+	long := false
+	for i := 0; i+64 <= len(b) && !long; i++ {
+		j := i
+		for j < len(b) && b[j] == b[i] {
+			j++
+		}
+		long = j-i >= 64
+		if j > i+1 {
+			i = j - 1
+		}
+	}
+	if !long {
+		return lib.CoqBytes(b)
+	}
+	var parts []string
+	start := 0
+	for i := 0; i < len(b); {
+		j := i
+		for j < len(b) && b[j] == b[i] {
+			j++
+		}
+		if j-i >= 64 {
+			if i > start {
+				parts = append(parts, lib.CoqBytes(b[start:i]))
+			}
+			parts = append(parts, fmt.Sprintf("repeat %d (Z.to_nat %d)", b[i], j-i))
+			start = j
+		}
+		i = j
+	}
+	if start < len(b) {
+		parts = append(parts, lib.CoqBytes(b[start:]))
+	}
+	return "(" + strings.Join(parts, " ++ ") + ")"
+}
+
 func unhex(s string) []byte {
 	b, _ := hex.DecodeString(s)
 	return b
@@ -256,7 +296,7 @@ func oneNumber(res []lua.LValue) (float64, bool) {
 	return 0, false
 }
 
-func coqOBytes(b []byte, ok bool) string { return lib.CoqOpt(ok, lib.CoqBytes(b)) }
+func coqOBytes(b []byte, ok bool) string { return lib.CoqOpt(ok, cb(b)) }
 
 func fvalTerm(f float64) string {
 	switch {
@@ -368,7 +408,7 @@ func runCase(w *lib.Writer, c in, kf ...string) {
 		}
 		back, bok := returnsString(w, id, q)
 		kc.Observed = map[string]any{"q": lib.Hex(q), "back": obsBytes(back, bok)}
-		kc.Coq = fmt.Sprintf("CQuote %s %s %s", lib.CoqBytes(s), lib.CoqBytes(q), coqOBytes(back, bok))
+		kc.Coq = fmt.Sprintf("CQuote %s %s %s", cb(s), cb(q), coqOBytes(back, bok))
 		kc.Nontrivial = nonPrintable(s)
 	case "short":
 		src := renderItems(c.Q, c.Items)
@@ -386,12 +426,12 @@ func runCase(w *lib.Writer, c in, kf ...string) {
 		src := longSrc(c.Lvl, s)
 		v, ok := returnsString(w, id, src)
 		kc.Observed = map[string]any{"src": lib.Hex(src), "value": obsBytes(v, ok)}
-		kc.Coq = fmt.Sprintf("CLong %d %s %s", c.Lvl, lib.CoqBytes(s), coqOBytes(v, ok))
+		kc.Coq = fmt.Sprintf("CLong %d %s %s", c.Lvl, cb(s), coqOBytes(v, ok))
 		kc.Nontrivial = nonPrintable(s) || strings.ContainsAny(string(s), "]=")
 	case "lit":
 		v, ok := returnsString(w, id, s)
 		kc.Observed = obsBytes(v, ok)
-		kc.Coq = fmt.Sprintf("CLit %s %s", lib.CoqBytes(s), coqOBytes(v, ok))
+		kc.Coq = fmt.Sprintf("CLit %s %s", cb(s), coqOBytes(v, ok))
 		kc.Nontrivial = true
 	case "scan":
 		var v []byte
@@ -407,12 +447,12 @@ func runCase(w *lib.Writer, c in, kf ...string) {
 			w.GoFail(id, "Go panic escaped from Scanner.Scan: "+pan)
 		}
 		kc.Observed = obsBytes(v, ok)
-		kc.Coq = fmt.Sprintf("CScan %s %s", lib.CoqBytes(s), coqOBytes(v, ok))
+		kc.Coq = fmt.Sprintf("CScan %s %s", cb(s), coqOBytes(v, ok))
 		kc.Nontrivial = true
 	case "num":
 		f, ok := readNumber(w, id, c.Rd, s)
 		kc.Observed = obsNum(f, ok)
-		kc.Coq = fmt.Sprintf("CNum %d %s %s", c.Rd, lib.CoqBytes(s), coqOF(f, ok))
+		kc.Coq = fmt.Sprintf("CNum %d %s %s", c.Rd, cb(s), coqOF(f, ok))
 		kc.Class = fmt.Sprintf("num/rd%d", c.Rd)
 		kc.Nontrivial = !plainDigits(s)
 	case "numb":
@@ -425,7 +465,7 @@ func runCase(w *lib.Writer, c in, kf ...string) {
 			w.GoFail(id, "tonumber(s, base): result is neither a number nor nil")
 		}
 		kc.Observed = obsNum(f, ok)
-		kc.Coq = fmt.Sprintf("CNumB %d %s %s", c.Base, lib.CoqBytes(s), coqOF(f, ok))
+		kc.Coq = fmt.Sprintf("CNumB %d %s %s", c.Base, cb(s), coqOF(f, ok))
 		kc.Nontrivial = true
 	case "numberr":
 		_, errs, pan := callFn(global("tonumber"), lua.LString(string(s)), lua.LNumber(c.Base))
@@ -433,7 +473,7 @@ func runCase(w *lib.Writer, c in, kf ...string) {
 			w.GoFail(id, "Go panic escaped from tonumber(s, base): "+pan)
 		}
 		kc.Observed = map[string]any{"raised": errs != "", "error": errs}
-		kc.Coq = fmt.Sprintf("CNumBErr %s %s %s", lib.CoqZ(int64(c.Base)), lib.CoqBytes(s), lib.CoqBool(errs != ""))
+		kc.Coq = fmt.Sprintf("CNumBErr %s %s %s", lib.CoqZ(int64(c.Base)), cb(s), lib.CoqBool(errs != ""))
 		kc.Nontrivial = true
 	case "numbn":
 		res, errs, pan := callFn(global("tonumber"), lua.LNumber(c.Z), lua.LNumber(c.Base))
@@ -459,7 +499,7 @@ func runCase(w *lib.Writer, c in, kf ...string) {
 			w.GoFail(id, "Go panic escaped from Scanner.Scan: "+pan)
 		}
 		kc.Observed = obsBytes(v, ok)
-		kc.Coq = fmt.Sprintf("CNumThen %s %s %s", lib.CoqBytes(s), lib.CoqBytes(rest), coqOBytes(v, ok))
+		kc.Coq = fmt.Sprintf("CNumThen %s %s %s", cb(s), cb(rest), coqOBytes(v, ok))
 		kc.Nontrivial = len(rest) > 0
 	case "tostr":
 		bits, _ := strconv.ParseUint(c.Bits, 10, 64)
@@ -475,7 +515,7 @@ func runCase(w *lib.Writer, c in, kf ...string) {
 		}
 		back, bok := oneNumber(res2)
 		kc.Observed = map[string]any{"str": string(str), "back": obsNum(back, bok)}
-		kc.Coq = fmt.Sprintf("CToStr %s %s %s", fvalTerm(x), lib.CoqBytes(str), coqOF(back, bok))
+		kc.Coq = fmt.Sprintf("CToStr %s %s %s", fvalTerm(x), cb(str), coqOF(back, bok))
 		kc.Nontrivial = !(x == math.Trunc(x) && math.Abs(x) < 1000)
 	case "datet":
 		res, errs, pan := callFn(field("os", "date"), lua.LString("*t"), lua.LNumber(c.T))
@@ -520,7 +560,7 @@ func runCase(w *lib.Writer, c in, kf ...string) {
 			switch {
 			case f.IsS:
 				dst.RawSetString(f.Name, lua.LString(string(unhex(f.Str))))
-				term = fmt.Sprintf("(%s, DStr %s)", fnames[f.Name], lib.CoqBytes(unhex(f.Str)))
+				term = fmt.Sprintf("(%s, DStr %s)", fnames[f.Name], cb(unhex(f.Str)))
 			case f.IsB:
 				dst.RawSetString(f.Name, lua.LTrue)
 				term = fmt.Sprintf("(%s, DBool true)", fnames[f.Name])
@@ -563,9 +603,9 @@ func runCase(w *lib.Writer, c in, kf ...string) {
 		var terms []string
 		for _, l := range c.Lits {
 			if l.Str {
-				terms = append(terms, "XStr "+lib.CoqBytes(unhex(l.Src)))
+				terms = append(terms, "XStr "+cb(unhex(l.Src)))
 			} else {
-				terms = append(terms, fmt.Sprintf("XNum %s %s", lib.CoqBool(l.Neg), lib.CoqBytes(unhex(l.Src))))
+				terms = append(terms, fmt.Sprintf("XNum %s %s", lib.CoqBool(l.Neg), cb(unhex(l.Src))))
 			}
 		}
 		chunk := ctxChunk(c.Lits)
@@ -582,7 +622,7 @@ func runCase(w *lib.Writer, c in, kf ...string) {
 				if l.Str {
 					if k < len(res) {
 						if sv, ok := res[k].(lua.LString); ok {
-							os = append(os, "OStr "+lib.CoqBytes([]byte(string(sv))))
+							os = append(os, "OStr "+cb([]byte(string(sv))))
 							obsJ = append(obsJ, lib.Hex([]byte(string(sv))))
 							k++
 							continue
@@ -605,7 +645,7 @@ func runCase(w *lib.Writer, c in, kf ...string) {
 				}
 				if okk {
 					nz := float64(x) == 0 && math.IsInf(float64(inv), -1)
-					os = append(os, fmt.Sprintf("ONum %s %s %s", fvalTerm(float64(x)), lib.CoqBool(nz), lib.CoqBytes([]byte(string(st)))))
+					os = append(os, fmt.Sprintf("ONum %s %s %s", fvalTerm(float64(x)), lib.CoqBool(nz), cb([]byte(string(st)))))
 					obsJ = append(obsJ, map[string]any{"x": obsNum(float64(x), true), "inv": obsNum(float64(inv), true), "str": string(st)})
 				} else {
 					os = append(os, "OBad")
@@ -628,7 +668,7 @@ func runCase(w *lib.Writer, c in, kf ...string) {
 			w.GoFail(id, "os.date(fmt, t) did not return a string: "+errs+pan)
 		}
 		kc.Observed = string(o)
-		kc.Coq = fmt.Sprintf("CStrf %s %s %s", lib.CoqZ(c.T), lib.CoqBytes(s), lib.CoqBytes(o))
+		kc.Coq = fmt.Sprintf("CStrf %s %s %s", lib.CoqZ(c.T), cb(s), cb(o))
 		kc.Nontrivial = c.T != 0
 	default:
 		panic("unknown kind " + c.Kind)
